@@ -192,7 +192,13 @@ def real_one(ctx: Ctx, b, model: str, method: str, tight: bool, tick: float, rng
     patience = 150.0 if ctx.quick else 1800.0      # generous: the machine may be loaded; quick durations take seconds
     orbits = [random_orbit(rng) for _ in range(kk)]
     x0 = np.stack([o[1] for o in orbits], axis=1)
-    jd0 = 2458484.5 + rng.randrange(0, 700) + rng.randrange(0, 86400) / 86400.0
+    # start epoch: anywhere in 2019-2020, or (half of the cases) a few hours after a calendar boundary, so that the
+    # epoch-shift twin (start date moved back by up to 3 days) starts on the other side of it
+    boundary = rng.choice((None, None, 2458849.5, 2459215.5, 2458908.5, 2458909.5, 2458665.5))   # 1 Jan 2020/2021, 29 Feb/1 Mar 2020, 1 Jul 2019
+    if boundary is None:
+        jd0 = 2458484.5 + rng.randrange(0, 700) + rng.randrange(0, 86400) / 86400.0
+    else:
+        jd0 = boundary + rng.randrange(0, 6 * 3600) / 86400.0
     rich = rng.random() < 0.3
     dyn = make_dyn(model, method, tight, jd0, rich)
     factor = 1.0 if tight else SHIPPED_FACTOR
@@ -204,7 +210,7 @@ def real_one(ctx: Ctx, b, model: str, method: str, tight: bool, tick: float, rng
             return []
         return [ScheduledFiniteBurn(ScenarioTime(b["burn"]["ts"] * tick + offset), ScenarioTime(1.0e9),
                                     partial(eciBurn, acc_vector=BURN_ACC * burn_dir), 1)]
-    desc = {"part": "real", "model": model, "method": method, "tight": tight, "tick_s": tick, "K": kk, "jd0": jd0, "rich": rich,
+    desc = {"part": "real", "model": model, "method": method, "tight": tight, "tick_s": tick, "K": kk, "jd0": jd0, "near_calendar_boundary": boundary is not None, "rich": rich,
             "burn_tick": b["burn"]["ts"], "calls": [[c["kind"], c["times"]] for c in b["hist"]],
             "orbits": [o[0] for o in orbits]}
     ref_cache: dict = {}
@@ -314,7 +320,7 @@ def real_one(ctx: Ctx, b, model: str, method: str, tight: bool, tick: float, rng
             traces.append({"band": band, "pts": clip, "desc": {**desc, "column": k}})
     else:
         # epoch-shift twin: the same absolute epoch written as (start date - D, elapsed seconds + D)
-        shift = float(rng.randrange(1, 3 * 86400))
+        shift = float(rng.randrange(6 * 3600, 3 * 86400) if boundary else rng.randrange(1, 3 * 86400))
         dyn2 = make_dyn(model, method, tight, jd0 - shift / 86400.0, rich)
         t_end = b["hist"][-1]["times"][-1]
         for k in range(kk):
@@ -337,6 +343,42 @@ def real_one(ctx: Ctx, b, model: str, method: str, tight: bool, tick: float, rng
              sample=desc if stats["behaviours"] % 41 == 1 else None)
 
 
+CALENDAR_BOUNDARIES = {"2020-01-01": 2458849.5, "2021-01-01": 2459215.5, "2020-02-29": 2458908.5, "2020-03-01": 2458909.5,
+                       "2019-07-01": 2458665.5, "2019-10-17": 2458773.5}
+
+
+def epoch_boundary_stratum(ctx: Ctx, rng: random.Random, stats: dict):
+    """Perturbed dynamics, the same absolute epoch written on both sides of a calendar boundary (year, leap day, month,
+    plain midnight): start 1 h after the boundary with t0 = 0  versus  start 1 h before it with t0 = 2 h."""
+    span = 600.0 if ctx.quick else 3600.0
+    for i, (name, jdb) in enumerate(sorted(CALENDAR_BOUNDARIES.items())):
+        method = ("RK45", "DOP853")[i % 2]
+        el, x0, period = random_orbit(rng)
+        while el["a"] > 12000.0:          # low orbits feel the tesseral terms most
+            el, x0, period = random_orbit(rng)
+        dyn_a = make_dyn("sp", method, True, jdb + 1.0 / 24.0, False)
+        dyn_b = make_dyn("sp", method, True, jdb - 1.0 / 24.0, False)
+        try:
+            with guard(600.0):
+                ya = np.asarray(dyn_a.propagate(0.0, span, x0.copy()), dtype=float)
+                yb = np.asarray(dyn_b.propagate(7200.0, 7200.0 + span, x0.copy()), dtype=float)
+        except Hang:
+            raise tlc.MachineryError("epoch boundary stratum: propagation without events did not return in 600 s")
+        s = (1.0 + span / period) ** 2
+        dr, dv = np.abs(ya - yb)[:3].max(), np.abs(ya - yb)[3:].max()
+        stats["epoch_shift_checks"] += 1
+        stats["max_shift_ratio"] = max(stats["max_shift_ratio"], dr / (BASE_R * s), dv / (BASE_V * s))
+        ctx.case(("epoch-boundary", name, method, round(el["a"])), nontrivial=True)
+        if dr > BASE_R * s or dv > BASE_V * s:
+            sig = "real:sp:epoch-shift-twin"
+            stats["violations"] += 1
+            stats["by_signature"][sig] = stats["by_signature"].get(sig, 0) + 1
+            ctx.violation(sig, f"(b) real sp/{method}: {span:g} s from the epoch {name} 01:00 written as (start {name} 01:00, t0 = 0) and as "
+                          f"(start 1 h before {name}, t0 = 7200 s) differ by {dr:.3g} km / {dv:.3g} km/s (tolerance {BASE_R * s:.2g} / "
+                          f"{BASE_V * s:.2g}; a = {el['a']:.0f} km)", {"part": "epoch-boundary", "boundary": name, "jd": jdb,
+                                                                        "method": method, "orbit": el, "span_s": span})
+
+
 def real_replay(ctx: Ctx, behs, rng: random.Random):
     stats = {"behaviours": 0, "comparisons": 0, "kepler_checks": 0, "epoch_shift_checks": 0, "violations": 0, "max_ratio": 0.0,
              "max_kepler_ratio": 0.0, "max_closed_form_ratio": 0.0, "max_shift_ratio": 0.0, "by_signature": {}, "by_config": {}}
@@ -347,9 +389,10 @@ def real_replay(ctx: Ctx, behs, rng: random.Random):
             groups.setdefault(structure(b), []).append(b)
     keys = sorted(groups, key=repr)
     rng.shuffle(keys)
-    n_tb, n_sp = (44, 14) if ctx.quick else (600, 100)
+    n_tb, n_sp = (44, 14) if ctx.quick else (450, 80)
     tb_ticks = (2.0, 12.0, 120.0, 720.0, 4320.0) if ctx.quick else (2.0, 12.0, 120.0, 720.0, 4320.0, 17280.0, 17280.0)
     sp_ticks = (2.0, 12.0, 120.0) if ctx.quick else (2.0, 12.0, 120.0, 720.0, 2880.0)
+    epoch_boundary_stratum(ctx, random.Random(rng.getrandbits(32)), stats)
     for i in range(n_tb + n_sp):
         key = keys[i % len(keys)]
         b = groups[key][rng.randrange(len(groups[key]))]
